@@ -515,6 +515,66 @@ func init() {
 			t.stop()
 		}
 
+		// 5d. the context ends while the caller is BETWEEN receives (processing a message) and the next response has
+		// already been sent: every receive made after that returns the status, none hands out a message read ahead
+		for _, t := range bothTransports(&hx.Svc{Stream: func(kind string, ss grpc.ServerStream) error {
+			for i := 1; i <= 3; i++ {
+				if err := ss.SendMsg(&hx.Msg{Count: int32(i)}); err != nil {
+					return err
+				}
+			}
+			<-ss.Context().Done()
+			return status.FromContextError(ss.Context().Err()).Err()
+		}}) {
+			for _, how := range []string{"cancel", "deadline"} {
+				var ctx context.Context
+				var cancel context.CancelFunc
+				want := codes.Canceled
+				if how == "cancel" {
+					ctx, cancel = context.WithCancel(context.Background())
+				} else {
+					ctx, cancel = context.WithTimeout(context.Background(), 150*time.Millisecond)
+					want = codes.DeadlineExceeded
+				}
+				cs, err := t.ch.NewStream(ctx, hx.StreamDescOf("SS"), "/verif.Svc/SS")
+				var res []string
+				ok := err == nil
+				if ok {
+					cs.SendMsg(&hx.Msg{})
+					cs.CloseSend()
+					first := &hx.Msg{}
+					e1 := cs.RecvMsg(first)
+					ok = e1 == nil && first.Count == 1
+					time.Sleep(60 * time.Millisecond) // the caller is busy with message 1; message 2 has been sent
+					if how == "cancel" {
+						cancel()
+					}
+					time.Sleep(160 * time.Millisecond) // the context has ended and the stream has noticed
+					for j := 0; j < 3; j++ {
+						m := &hx.Msg{}
+						e := cs.RecvMsg(m)
+						if e == nil {
+							res = append(res, fmt.Sprintf("message %d", m.Count))
+						} else {
+							res = append(res, e.Error())
+						}
+						if !isCtxStatus(e, want) {
+							ok = false
+						}
+					}
+					runtime.KeepAlive(cs)
+				}
+				cancel()
+				id++
+				d := map[string]interface{}{"transport": t.name, "kind": "SS, the handler sends three responses at once", "context_ends_by": how, "when": "after the first receive returned, before the second is made", "receives_after_the_context_ended": res}
+				if !ok {
+					o.Violate("a receive made after the context had ended returned something other than the context's status", d, res, want.String())
+				}
+				checked(o, "context_ends_between_receives_"+t.name+"_"+how, id, ok, d)
+			}
+			t.stop()
+		}
+
 		// 6. HTTP unary: the reply (headers with a Content-Length, small and large) stalls in the middle of
 		// its body, then the context ends (cancelled, deadline): the call must return the status, every time
 		// (two things become ready together when the read is aborted; no choice among them may surface the
